@@ -20,8 +20,12 @@
     with a flag off the model performs the corresponding defect (second Write for the newline, Write
     outside the lock, a new mutex per clone, no reset, buffer released before the Write, gate after
     formatting).  No proofs here. *)
-From Coq Require Import List NArith Arith Bool.
+From Coq Require Import List NArith ZArith Arith Bool.
 Import ListNotations.
+
+(** Options.Enabled: a record at [level] passes the gate of a handler whose threshold is [threshold] -
+    for ARBITRARY integers (slog.Level is an int), not only the five named levels. *)
+Definition level_enabled (threshold level : Z) : bool := (threshold <=? level)%Z.
 
 Record cflags := mkCF {
   single_write : bool;       (* Handle calls out.Write exactly once, with the whole buffer *)
@@ -247,10 +251,14 @@ Record conc_facts := mkConcFacts {
   ff_reset_before_put : bool;  (* freeBuffer: buf = ( *buf)[:0] before bufferPool.Put(buf) *)
   ff_refuses_oversized : bool; (* … inside `if cap( *buf) <= maxBufferSize` *)
   ff_pool_new_empty : bool;    (* bufferPool.New: make([]byte, 0, n) *)
-  lf_gate_first : bool         (* log, logf, logAttrs start with `if !l.h.Enabled(level) { return nil }` *)
+  lf_gate_first : bool;        (* log, logf, logAttrs start with `if !l.h.Enabled(level) { return nil }` *)
+  of_level_stored : bool;      (* NewOptions stores its level argument unchanged *)
+  of_enabled_is_ge : bool      (* Options.Enabled is `l >= opts.level` *)
 }.
 Definition conc_flags (x : conc_facts) : cflags :=
   mkCF (hf_single_write x) (hf_write_under_lock x) (hf_clone_shares_mu x)
        (ff_reset_before_put x && ff_pool_new_empty x) (ff_refuses_oversized x) (lf_gate_first x)
        (hf_buf_from_pool x && hf_free_deferred x).
-Definition conc_discipline (x : conc_facts) : bool := discipline (conc_flags x) && hf_handle_readonly x.
+(** the last two facts tie the model's gate predicate to [level_enabled threshold] with the threshold the caller configured *)
+Definition conc_discipline (x : conc_facts) : bool :=
+  discipline (conc_flags x) && hf_handle_readonly x && of_level_stored x && of_enabled_is_ge x.
